@@ -19,7 +19,7 @@ Definition is_crash (obs : list Z) : bool :=
 Definition prop_case (inp obs : list Z) : Z :=
   let '(cfg, ops) := decode inp in
   if is_crash obs then 99
-  else prop_code cfg ops (parse_obs (length ops) obs).
+  else prop_code_full cfg ops (parse_obs (length ops) obs).
 
 (* non-trivial: at least one attempt admitted and at least one rejected (by the model) *)
 Definition nontrivial_case (inp : list Z) : bool :=
@@ -29,4 +29,7 @@ Definition nontrivial_case (inp : list Z) : bool :=
                              (combine ops os)) in
   existsb (fun o => o_status o =? 0) att && existsb (fun o => o_status o =? 1) att.
 
-Definition finding_sig (inp obs : list Z) : Z := 0.
+(* known-finding shapes: 1 = everything holds except clause 3 (non-preemptible pod admitted
+   against a dimension missing from min) *)
+Definition finding_sig (inp obs : list Z) : Z :=
+  if prop_case inp obs =? 3 then 1 else 0.
